@@ -509,6 +509,9 @@ pub fn workload(name: &str, tier: &str) -> Option<Box<dyn Workload>> {
         "c04load" => Some(Box::new(c04::LoadCrash {
             n: if quick { 30_000 } else { 1_000_000 },
         })),
+        "c05corpus" => Some(Box::new(c05::CorpusTrivia {
+            variants: if quick { 8 } else { 200 },
+        })),
         "c05" => Some(Box::new(c05::Rewrites {
             n: if quick { 12_000 } else { 300_000 },
         })),
